@@ -7,3 +7,45 @@ def sublists {α} : List α → List (List α)
   | x :: xs => let r := sublists xs; r ++ r.map (x :: ·)
 
 end Ptx
+
+namespace Ptx
+
+/-- `mapM` for `Option`, by structural recursion (easier to reason about than `List.mapM`) -/
+def mapOpt {α β} (f : α → Option β) : List α → Option (List β)
+  | [] => some []
+  | x :: xs =>
+    match f x, mapOpt f xs with
+    | some y, some ys => some (y :: ys)
+    | _, _ => none
+
+theorem mapOpt_mem_fwd {α β} {f : α → Option β} : ∀ {xs : List α} {ys : List β},
+    mapOpt f xs = some ys → ∀ x ∈ xs, ∃ y ∈ ys, f x = some y
+  | [], ys, h, x, hx => by cases hx
+  | a :: xs, ys, h, x, hx => by
+      simp only [mapOpt] at h
+      split at h
+      · next y ys' hy hys =>
+        cases h
+        cases hx with
+        | head => exact ⟨y, List.mem_cons_self, hy⟩
+        | tail _ hx =>
+          obtain ⟨y', hy', hf⟩ := mapOpt_mem_fwd hys x hx
+          exact ⟨y', List.mem_cons_of_mem _ hy', hf⟩
+      · cases h
+
+theorem mapOpt_mem_bwd {α β} {f : α → Option β} : ∀ {xs : List α} {ys : List β},
+    mapOpt f xs = some ys → ∀ y ∈ ys, ∃ x ∈ xs, f x = some y
+  | [], ys, h, y, hy => by simp [mapOpt] at h; subst h; cases hy
+  | a :: xs, ys, h, y, hy => by
+      simp only [mapOpt] at h
+      split at h
+      · next y0 ys' hy0 hys =>
+        cases h
+        cases hy with
+        | head => exact ⟨a, List.mem_cons_self, hy0⟩
+        | tail _ hy =>
+          obtain ⟨x, hx, hf⟩ := mapOpt_mem_bwd hys y hy
+          exact ⟨x, List.mem_cons_of_mem _ hx, hf⟩
+      · cases h
+
+end Ptx
